@@ -175,6 +175,9 @@ class _Proc:
             np.random.standard_normal(int(op["k"]))
         elif k == "seed":
             np.random.seed(int(op["s"]))
+        elif k == "np_state":                                 # process-global NumPy settings other than the generator
+            np.set_printoptions(**op["print"])
+            np.seterr(**op.get("err", {}))
         elif k == "pyrandom":
             pyrandom.seed(op.get("s"))
             [pyrandom.random() for _ in range(int(op["k"]))]
@@ -415,7 +418,7 @@ def gen_config(rng, i, budget_scale=1):
 
 
 def gen_foreign_spec(rng, avoid_D=None):
-    D = rng.choice([d for d in (1, 2, 3, 4, 5) if d != avoid_D] if rng.random() < 0.8 else [1, 2, 3, 4, 5])
+    D = rng.choice([d for d in (1, 2, 3, 4, 5) if d != avoid_D] if rng.random() < 0.6 else ([avoid_D] if avoid_D else [1, 2, 3, 4, 5]))
     spec = dict(D=D, seed=(rng.randrange(0, 10 ** 6) if rng.random() < 0.5 else None),
                 x0_omitted=rng.random() < 0.5, noisy=rng.random() < 0.3, budget=rng.choice([15, 25, 40]))
     if spec["noisy"]:
@@ -424,11 +427,18 @@ def gen_foreign_spec(rng, avoid_D=None):
         spec["display"] = rng.choice(["iter", "full"])
     if rng.random() < 0.3:
         spec["options"] = {"fun_eval_start": rng.choice([1, 4, 16])}
+    if rng.random() < 0.35:                                  # user options that dependent defaults are derived from
+        spec.setdefault("options", {})["tol_fun"] = rng.choice([0.5, 1e-6, 0.05])
     return spec
 
 
+def gen_np_state(rng):
+    return dict(op="np_state", print=dict(linewidth=rng.choice([8, 20, 200]), threshold=rng.choice([3, 1000]), precision=rng.choice([2, 8]),
+                                          edgeitems=rng.choice([1, 3])), err=dict(all=rng.choice(["ignore", "warn"])))
+
+
 HISTORY_KINDS = ["none", "draws", "seed", "foreign_opt", "interleaved_construct", "same_twice", "mixed", "interleaved_opt",
-                 "interleaved_draws"]
+                 "interleaved_draws", "np_state"]
 
 
 def gen_history(rng, kind, cfg):
@@ -440,6 +450,12 @@ def gen_history(rng, kind, cfg):
         pre = [dict(op="draw", k=rng.randrange(1, 2000))]
         if rng.random() < 0.5:
             pre.append(dict(op="draw_normal", k=rng.randrange(1, 50)))
+        if rng.random() < 0.5:
+            pre.append(gen_np_state(rng))
+    elif kind == "np_state":
+        pre = [gen_np_state(rng)]
+        if rng.random() < 0.5:
+            mid = [gen_np_state(rng)]
     elif kind == "seed":
         pre = [dict(op="seed", s=rng.randrange(0, 2 ** 31 - 1)), dict(op="draw", k=rng.randrange(0, 20))]
     elif kind == "foreign_opt":
@@ -475,7 +491,7 @@ def gen_history(rng, kind, cfg):
 def gen_histories(rng, cfg, n, i):
     """history 0 is always 'none' (the reference); the others rotate through the kinds so that a small
     panel still contains each kind, interleaved kinds first."""
-    order = ["interleaved_draws", "foreign_opt", "interleaved_construct", "mixed", "same_twice", "draws", "seed", "interleaved_opt"]
+    order = ["interleaved_draws", "foreign_opt", "np_state", "interleaved_construct", "mixed", "same_twice", "draws", "seed", "interleaved_opt"]
     out = [gen_history(rng, "none", cfg)]
     for j in range(n - 1):
         out.append(gen_history(rng, order[(i * (n - 1) + j) % len(order)], cfg))
